@@ -151,6 +151,13 @@ def _job(job):
 
     r = S.explore(system, data, cuts, on_state=on_state if sysname != 'wrapper' else None)
     terms = []
+    if sysname != 'wrapper' and mode == 'cand':
+        # the same bytes as memoryview slices of one re-used read buffer
+        from vlib.checks.c01 import spread
+        for kind in ('bytearray', 'memoryview'):
+            tv, _tb = S.typed_run(sysname, data, spread(cuts, 5), kind)
+            got = tv[2] if len(tv) == 4 else ('error', repr(tv))
+            terms.append({'got': got, 'fmt': None, 'path': ['typed', kind] + spread(cuts, 5)})
     for v, path in r.verdicts.items():
         if sysname == 'wrapper':
             got = v[2][2] if (len(v) == 3 and v[2] is not None) else ('no-format', repr(v[:2]))
@@ -235,6 +242,10 @@ def replay(payload):
     data = unpack(payload['image'])
     system = (S.WrapperSystem() if payload['system'] == 'wrapper'
               else S.InspectorSystem(payload['system']))
+    if payload['path'][:1] == ['typed']:
+        tv, _tb = S.typed_run(payload['system'], data, payload['path'][2:], payload['path'][1])
+        got = tv[2] if len(tv) == 4 else None
+        return {'violates': got != payload['declared'], 'reported': got, 'typed_verdict': repr(tv)}
     obj, trace = S.replay_path(system, data, payload['path'], queries=True)
     if payload['kind'] == 'T2':
         v = trace[-1].get('verdict') if trace else None
